@@ -41,7 +41,18 @@ type target struct {
 	name        string
 	call        func(b []byte) error
 	allocExempt bool
-	typ         *pdus.Type // typed IDecode: enables the truncated-mandatory clause
+	// allocPerOctet overrides the 64 octets per input octet of the allocation bound (0 = default). The String()
+	// entry points of golang.org/x/text retry with a doubled destination after every ErrShortDst and the GSM-7
+	// transformers decode the whole message anew on each retry: ~log2(n) passes, each linear in the input.
+	allocPerOctet uint64
+	typ           *pdus.Type // typed IDecode: enables the truncated-mandatory clause
+}
+
+func (t *target) perOctet() uint64 {
+	if t.allocPerOctet != 0 {
+		return t.allocPerOctet
+	}
+	return 64
 }
 
 // sliceConn is a codec.ConnReader over a byte slice (documented contract: Peek returns what is
@@ -122,6 +133,17 @@ func auxTargets() []target {
 	tb := func(tr transform.Transformer) func([]byte) error {
 		return func(b []byte) error { _, _, err := transform.Bytes(tr, b); return err }
 	}
+	// the other golang.org/x/text entry points of the same transformers: String() (128-octet chunks, grows on
+	// ErrShortSrc) and transform.Reader (what has been read so far, 4096-octet buffer)
+	tstr := func(tr transform.Transformer) func([]byte) error {
+		return func(b []byte) error { _, _, err := transform.String(tr, string(b)); return err }
+	}
+	trd := func(mk func() transform.Transformer) func([]byte) error {
+		return func(b []byte) error {
+			_, err := io.ReadAll(transform.NewReader(&dripReader{b: b, n: 1 + len(b)%7}, mk()))
+			return err
+		}
+	}
 	out := []target{
 		{name: "cmpp.PeekHeader", call: func(b []byte) error { _, err := cmpp.PeekHeader(b); return err }},
 		{name: "smgp.PeekHeader", call: func(b []byte) error { _, err := smgp.PeekHeader(b); return err }},
@@ -159,6 +181,14 @@ func auxTargets() []target {
 		{name: "gsm7encoding.GSM7(unpacked).Decoder", call: tb(gsm7encoding.GSM7(false).NewDecoder())},
 		{name: "gsm7encoding.GSM7(packed).Encoder", call: tb(gsm7encoding.GSM7(true).NewEncoder())},
 		{name: "gsm7encoding.GSM7(unpacked).Encoder", call: tb(gsm7encoding.GSM7(false).NewEncoder())},
+		{name: "gsm7encoding.GSM7(packed).Decoder.String", allocPerOctet: 512, call: tstr(gsm7encoding.GSM7(true).NewDecoder())},
+		{name: "gsm7encoding.GSM7(unpacked).Decoder.String", allocPerOctet: 512, call: tstr(gsm7encoding.GSM7(false).NewDecoder())},
+		{name: "gsm7encoding.GSM7(packed).Encoder.String", allocPerOctet: 512, call: tstr(gsm7encoding.GSM7(true).NewEncoder())},
+		{name: "gsm7encoding.GSM7(unpacked).Encoder.String", allocPerOctet: 512, call: tstr(gsm7encoding.GSM7(false).NewEncoder())},
+		{name: "transform.Reader(GSM7(packed).Decoder)", call: trd(func() transform.Transformer { return gsm7encoding.GSM7(true).NewDecoder() })},
+		{name: "transform.Reader(GSM7(unpacked).Decoder)", call: trd(func() transform.Transformer { return gsm7encoding.GSM7(false).NewDecoder() })},
+		{name: "transform.Reader(GSM7(packed).Encoder)", call: trd(func() transform.Transformer { return gsm7encoding.GSM7(true).NewEncoder() })},
+		{name: "transform.Reader(GSM7(unpacked).Encoder)", call: trd(func() transform.Transformer { return gsm7encoding.GSM7(false).NewEncoder() })},
 		{name: "cmpp.MsgIDString2Uint64", call: func(b []byte) error { cmpp.MsgIDString2Uint64(string(b)); return nil }},
 		{name: "codec.CMPPCodec.Decode", call: func(b []byte) error { _, err := codec.NewCMPPCodec().Decode(&sliceConn{b}); return err }},
 		{name: "codec.SMPPCodec.Decode", call: func(b []byte) error { _, err := codec.NewSMPPCodec().Decode(&sliceConn{b}); return err }},
@@ -244,7 +274,7 @@ func monitor(c *fw.Case, tg target, in []byte) (err error, bad bool) {
 	}
 	if !tg.allocExempt {
 		d := a1 - a0
-		bound := uint64(2<<20) + 64*uint64(len(in))
+		bound := uint64(2<<20) + tg.perOctet()*uint64(len(in))
 		// runtime/metrics credits small-object spans when an mcache span is swapped, so one delta can carry
 		// up to ~1 MiB allocated by earlier calls. A genuine over-allocation repeats on every run of the
 		// same input; accounting noise does not: take the minimum of three measurements.
@@ -262,7 +292,7 @@ func monitor(c *fw.Case, tg target, in []byte) (err error, bad bool) {
 		if d > bound {
 			st.allocViol[tg.name]++
 			debug.FreeOSMemory()
-			c.Failf("alloc/"+tg.name, "target %s allocated %d octets for a %d-octet input (bound 2 MiB + 64*len, minimum of three runs)\ninput=%s", tg.name, d, len(in), hx(in))
+			c.Failf("alloc/"+tg.name, "target %s allocated %d octets for a %d-octet input (bound 2 MiB + %d*len, minimum of three runs)\ninput=%s", tg.name, d, len(in), tg.perOctet(), hx(in))
 			return err, true
 		}
 	}
@@ -364,7 +394,7 @@ func init() {
 		Rule: "inputs = reference images of generated PDUs mutated structurally (every truncation point, every length/count field x boundary values, every offset x 5 octet values, trailing garbage 1..16, TLV-tail surgery) plus unstructured strings 0..64 KiB, fed to 57 IDecodes, 5 dispatchers and 45 auxiliary parsers; " +
 			"distinct_nontrivial = distinct (stage, target, outcome class[, PDU type, mutation class]) combinations observed, outcome class in {accepted, error}",
 		Assumptions: []string{
-			"allocation bound 2 MiB + 64*len(input) per call, minimum of three measurements (DESIGN 3.3); not applied to DecodeBlocked, whose announced frame sizes are clamped to 1 MiB",
+			"allocation bound 2 MiB + 64*len(input) per call (512*len for the four String() entry points, whose x/text driver retries ~log2(n) times), minimum of three measurements (DESIGN 3.3); not applied to DecodeBlocked, whose announced frame sizes are clamped to 1 MiB",
 			"a hang is a logical-step overrun: 64*(len+1024) Tick events per call; loops without a Tick site are covered only by the wall-clock watchdog (inconclusive)",
 		},
 		Conclude: func(total *fw.Result) []string {
@@ -860,6 +890,28 @@ func fuzzInit() {
 	})
 }
 
+// dripReader hands out its octets n at a time.
+type dripReader struct {
+	b []byte
+	n int
+}
+
+func (d *dripReader) Read(p []byte) (int, error) {
+	if len(d.b) == 0 {
+		return 0, io.EOF
+	}
+	k := d.n
+	if k > len(d.b) {
+		k = len(d.b)
+	}
+	if k > len(p) {
+		k = len(p)
+	}
+	copy(p, d.b[:k])
+	d.b = d.b[k:]
+	return k, nil
+}
+
 // C03TargetCount is the number of decoder/parser entry points the fuzz target can select.
 func C03TargetCount() int { fuzzInit(); return len(fuzzJ.targets) }
 
@@ -890,7 +942,7 @@ func C03Judge(sel int, in []byte) (sig, detail string) {
 		return fw.PanicSig(val, stack) + "/" + tg.name, fmt.Sprintf("target %s input(%d)=%s\npanic: %v\n%s", tg.name, len(in), hx(in), val, stack)
 	}
 	if !tg.allocExempt {
-		bound := uint64(2<<20) + 64*uint64(len(in))
+		bound := uint64(2<<20) + tg.perOctet()*uint64(len(in))
 		for rep := 0; rep < 2 && d > bound; rep++ {
 			if _, _, _, _, d2 := measure(); d2 < d {
 				d = d2
